@@ -685,6 +685,98 @@ def directed_triangles():
     return out
 
 
+_LARGE = {}
+LARGE_OPS = ["utils.summarize", "utils.summarize_falsy_kw", "utils.aggregate", "utils.aggregate_positional", "plot.build_plot_data",
+             "utils.thin", "utils.blend", "utils.blend_self", "utils.merge", "utils.coalesce", "utils.to_incremental", "utils.to_cumulative",
+             "utils.add_statics", "utils.moment_match", "utils.bootstrap", "io.to_binary", "io.to_json_str", "io.to_long_data_frame",
+             "tri.select", "tri.derive_fields_fn", "tri.derive_metadata", "tri.right_edge", "tri.slices", "tri.eq", "tri.hash",
+             "tri.add", "tri.repr", "cell.to_record", "meta.api", "utils.split", "utils.make_right_triangle", "utils.period_merge"]
+LARGE_CHART_OPS = ["plot.plot_right_edge", "plot.plot_histogram", "plot.plot_growth_curve"]
+
+
+def large_triangles(thorough=False):
+    """HARDENING family Q: a few LARGE triangles built once per process (sizes cross the thresholds met in seeded
+    changes: > 128 / 129 / 257 cells merging into one output cell, >= 4096 / 5000 samples per array incl. reversed
+    views, >= 3100 cells, rows of > 65 cells and > 64 evaluation dates, > 2100 distinct Metadata, integers
+    beyond 2**53)."""
+    key = bool(thorough)
+    if key in _LARGE:
+        return _LARGE[key]
+    from bermuda import CumulativeCell, IncrementalCell, Metadata, Triangle
+
+    D = datetime.date
+    out = {}
+    g = np.random.default_rng(12345)
+
+    def me(y, m):
+        import calendar
+        return D(y, m, calendar.monthrange(y, m)[1])
+
+    def add(name, thunk):
+        try:
+            with warnings.catch_warnings():
+                warnings.simplefilter("ignore")
+                out[name] = thunk()
+        except Exception:  # noqa: BLE001
+            pass
+
+    def slices_tri(nsl, inc=False):
+        cells = []
+        for s_ in range(nsl):
+            m = Metadata(details={"id": 20240000001 + s_}, per_occurrence_limit=2**53 + s_ % 2)
+            for p_ in range(2):
+                prev = D(2020, 1 + 3 * p_, 1) - datetime.timedelta(days=1)
+                for e in (me(2020, 6), me(2020, 9)):
+                    vals = {"paid_loss": g.integers(1, 1000, 3).astype(float), "earned_premium": float(100 + s_)}
+                    kw = dict(period_start=D(2020, 1 + 3 * p_, 1), period_end=me(2020, 3 + 3 * p_), evaluation_date=e, values=vals, metadata=m)
+                    if inc:
+                        cells.append(IncrementalCell(prev_evaluation_date=prev, **kw))
+                        prev = e
+                    else:
+                        cells.append(CumulativeCell(**kw))
+        return Triangle(cells)
+
+    def many_periods(np_, days=2):
+        cells = []
+        for p_ in range(np_):
+            ps = D(2020, 1, 1) + datetime.timedelta(days=days * p_)
+            vals = {"paid_loss": g.integers(1, 1000, 4).astype(float), "earned_premium": 2**53 + p_}
+            cells.append(CumulativeCell(period_start=ps, period_end=ps + datetime.timedelta(days=days - 1),
+                                        evaluation_date=D(2020, 12, 31), values=vals))
+        return Triangle(cells)
+
+    def big_samples(n):
+        cells = []
+        for p_ in range(2):
+            for j, e in enumerate((me(2020, 12), me(2021, 12))):
+                a = g.permutation(n).astype(float) + 1
+                vals = {"paid_loss": a if (p_ + j) % 2 else a[::-1], "reported_loss": 2 * a + 1, "earned_premium": 5000.0 * n}
+                cells.append(CumulativeCell(period_start=D(2019 + p_, 1, 1), period_end=D(2019 + p_, 12, 31), evaluation_date=e, values=vals))
+        return Triangle(cells)
+
+    def long_rows(P, L):
+        cells = []
+        for p_ in range(P):
+            y, m = 2000 + p_ // 12, 1 + p_ % 12
+            for lag in range(L):
+                i = y * 12 + m - 1 + lag
+                cells.append(CumulativeCell(period_start=D(y, m, 1), period_end=me(y, m), evaluation_date=me(i // 12, i % 12 + 1),
+                                            values={"paid_loss": 100 * (lag + 1) + p_, "earned_premium": 2**53 + 1}))
+        return Triangle(cells)
+
+    add("Q:140-slices-one-group", lambda: slices_tri(140))                 # summarize: 140 cells merge into one
+    add("Q:257-slices-incremental", lambda: slices_tri(257, inc=True))
+    add("Q:140-periods-one-year", lambda: many_periods(140))               # aggregate to a year: 140 cells merge into one
+    add("Q:5000-sample-arrays", lambda: big_samples(5000))                 # >= 4096 samples, reversed views
+    add("Q:50x66-rows", lambda: long_rows(50, 66))                         # 3300 cells, rows of 66, > 64 evaluation dates
+    if thorough:
+        add("Q:2200-slices", lambda: slices_tri(2200))
+        add("Q:1100-periods", lambda: many_periods(1100, days=1))
+        add("Q:100000-sample-arrays", lambda: big_samples(100000))
+    _LARGE[key] = out
+    return out
+
+
 def run_case(case: dict, tmp, stop_at_first=True):
     """case = {"seed": int, "shape": [v,b,s] | None, "ops": [names] | None, "length": int}
     Returns (record, violations).  Every call of the sequence is monitored; in addition every
@@ -696,7 +788,10 @@ def run_case(case: dict, tmp, stop_at_first=True):
     shape = tuple(case["shape"]) if case.get("shape") else None
     with warnings.catch_warnings():
         warnings.simplefilter("ignore")
-        if case.get("directed"):
+        if case.get("large"):
+            root = large_triangles(case.get("thorough", False))[case["large"]]
+            info = {"shape": "large:" + case["large"], "n_cells": len(root), "large": case["large"]}
+        elif case.get("directed"):
             root = directed_triangles()[case["directed"]]
             info = {"shape": "directed:" + case["directed"], "n_cells": len(root), "directed": case["directed"]}
         else:
@@ -731,7 +826,8 @@ def run_case(case: dict, tmp, stop_at_first=True):
         for label, path in changes:
             violations.append({"seed": case["seed"], "shape": list(shape) if shape else None, "ops": list(seq),
                                "step": step, "op": name, "outcome": trace[-1][1], "argument": label, "change": path,
-                               "triangle": info.get("shape"), "directed": case.get("directed")})
+                               "triangle": info.get("shape"), "directed": case.get("directed"),
+                               "large": case.get("large"), "thorough": case.get("thorough", False)})
         # the known defaultdict finding (see c03.classify) does not end the exploration of a sequence
         if stop_at_first and any("defaultdict" not in v["change"] for v in violations):
             break
